@@ -14,6 +14,8 @@ import (
 	"go/printer"
 	"go/token"
 	"go/types"
+	"os"
+	"regexp"
 	"strings"
 
 	"golang.org/x/tools/go/packages"
@@ -308,6 +310,79 @@ var osRewrites = map[string]string{
 	"(*os.File).Write": "OSWrite", "(*os.File).Sync": "OSSync", "(*os.File).Close": "OSClose",
 }
 
+// nativeStubNames: function names (go/types FullName) that some harness redirects with
+// verifrt.StubNative; filled from the harness sources before instrumenting.
+var nativeStubNames = map[string]bool{}
+
+var reStubNative = regexp.MustCompile(`verifrt\.StubNative\("([^"]+)"`)
+
+func collectNativeStubs(dirFiles map[string][]string) {
+	for _, files := range dirFiles {
+		for _, f := range files {
+			data, _ := os.ReadFile(f)
+			for _, m := range reStubNative.FindAllStringSubmatch(string(data), -1) {
+				nativeStubNames[m[1]] = true
+			}
+		}
+	}
+}
+
+// nativeStubPrologue: `if f := verifrt.NativeStub(name); f != nil { return f.(func(recv, params) results)(recv, params...) }`
+// at the top of a function some harness redirects with verifrt.StubNative, so that the native
+// replay has the same thread structure and environment as the symbolic run.
+func (x *instr) nativeStubPrologue(fd *ast.FuncDecl) {
+	obj, _ := x.info.Defs[fd.Name].(*types.Func)
+	if obj == nil || !nativeStubNames[obj.FullName()] {
+		return
+	}
+	var ptypes, args []ast.Expr
+	add := func(fl *ast.FieldList) bool {
+		if fl == nil {
+			return true
+		}
+		for _, f := range fl.List {
+			if len(f.Names) == 0 {
+				return false
+			}
+			if _, variadic := f.Type.(*ast.Ellipsis); variadic {
+				return false
+			}
+			for _, nm := range f.Names {
+				if nm.Name == "_" {
+					return false
+				}
+				ptypes = append(ptypes, f.Type)
+				args = append(args, ast.NewIdent(nm.Name))
+			}
+		}
+		return true
+	}
+	if !add(fd.Recv) || !add(fd.Type.Params) {
+		return
+	}
+	ft := &ast.FuncType{Params: &ast.FieldList{}, Results: fd.Type.Results}
+	for _, t := range ptypes {
+		ft.Params.List = append(ft.Params.List, &ast.Field{Type: t})
+	}
+	call := &ast.CallExpr{Fun: &ast.TypeAssertExpr{X: ast.NewIdent("verifStubF"), Type: ft}, Args: args}
+	var body []ast.Stmt
+	if fd.Type.Results != nil && len(fd.Type.Results.List) > 0 {
+		body = []ast.Stmt{&ast.ReturnStmt{Results: []ast.Expr{call}}}
+	} else {
+		body = []ast.Stmt{&ast.ExprStmt{X: call}, &ast.ReturnStmt{}}
+	}
+	ifs := &ast.IfStmt{
+		Init: &ast.AssignStmt{Lhs: []ast.Expr{ast.NewIdent("verifStubF")}, Tok: token.DEFINE, Rhs: []ast.Expr{&ast.CallExpr{
+			Fun:  &ast.SelectorExpr{X: ast.NewIdent("verifrt"), Sel: ast.NewIdent("NativeStub")},
+			Args: []ast.Expr{&ast.BasicLit{Kind: token.STRING, Value: fmt.Sprintf("%q", obj.FullName())}},
+		}}},
+		Cond: &ast.BinaryExpr{X: ast.NewIdent("verifStubF"), Op: token.NEQ, Y: ast.NewIdent("nil")},
+		Body: &ast.BlockStmt{List: body},
+	}
+	fd.Body.List = append([]ast.Stmt{ifs}, fd.Body.List...)
+	x.used = true
+}
+
 // hookRewrites: calls redirected natively to an in-package harness function when the package
 // declares it (the function decides at run time whether to call through to the real one).
 var hookRewrites = map[string]string{
@@ -362,6 +437,9 @@ func instrumentPackage(dir string) (map[string][]byte, error) {
 		for _, d := range f.Decls {
 			if fd, ok := d.(*ast.FuncDecl); ok && fd.Body != nil {
 				x.block(fd.Body)
+				if !strings.Contains(name, "zz_verif_") {
+					x.nativeStubPrologue(fd)
+				}
 			}
 		}
 		if !x.used {
